@@ -244,10 +244,10 @@ def diffDispatchOne : List (Bytes × Option Bytes) := [
     # An error occurred in decompressor, grep, or some other command. Update
     # res unless a larger error code has been seen with an earlier file.
     test "$res" -lt "$r" && res=$r
-  elif test "$r" -lt "$res"; then
-    # No errors occurred with this file so r is 0 or 1 here. A match (0)
-    # replaces the initial "no match yet" value (1).
-    res=$r
+  elif test "$r" -eq 0; then
+    # grep found a match and no errors occurred. Update res if no errors have
+    # occurred with earlier files.
+    test "$res" -eq 1 && res=0
   fi
 ``` -/
 def grepFileStatus : List Stmt := [
@@ -258,7 +258,7 @@ def grepFileStatus : List Stmt := [
       ([.cmp .gt (.v .xz) (.n 0)], [⟨[.cmp .lt (.v .r) (.n 2)], .set .r (.n 2)⟩])],
   .ifChain [
       ([.cmp .ge (.v .r) (.n 2)], [⟨[.cmp .lt (.v .res) (.v .r)], .set .res (.v .r)⟩]),
-      ([.cmp .lt (.v .r) (.v .res)], [⟨[], .set .res (.v .r)⟩])]]
+      ([.cmp .eq (.v .r) (.n 0)], [⟨[.cmp .eq (.v .res) (.n 1)], .set .res (.n 0)⟩])]]
 
 /-- xzgrep.in:246  sed fallback, `r=$( … ) || {` this block `}` ; `pipe` is `$?` of the pipeline (sed's status):
 ```
